@@ -714,3 +714,222 @@ Proof.
     rewrite (Hkeys i) by lia. rewrite <- (Hkeys j) by lia. rewrite combine_fst_snd. reflexivity.
   - rewrite map_repeat'. cbn [glist]. destruct (map fst (sort_keys (kvs i))); reflexivity.
 Qed.
+
+(* ------------------------------------------------------------------ sync_tensor / ideal families *)
+Theorem tensor_sync_lossless g dst Wg (ts : nat -> tensor) d z : let n := List.length g in
+  n > 0 -> dst_ok g dst -> (forall i, i < n -> tens_ok d z (ts i)) ->
+  run_all (respond g) (map (fun i => sync_tensor dst i Wg (ts i)) (seq 0 n))
+  = Some (map (fun i => Ok (if receives dst i then pad_slots Wg (map (fun j => GT (ts j)) (seq 0 n))
+                            else untouched Wg)) (seq 0 n)).
+Proof.
+  intros n Hn Hok Ht. unfold sync_tensor.
+  bindr_with (fun i => send_tensors dst i (ts i)) (fun i => if receives dst i then Some (map ts (seq 0 n)) else None).
+  { apply (send_tensors_lossless g dst ts d z Hn Hok Ht). }
+  apply run_all_ret_ext. intros i _. destruct (receives dst i); [|reflexivity]. rewrite map_map. reflexivity.
+Qed.
+
+(* the sync of one state (one traversal key) is ideal: every receiving rank obtains, for slot
+   j < n, the ideal value [iv j] of rank j's state, and [tl] in the slots of ranks outside the group;
+   the other ranks keep the untouched placeholders *)
+Definition ideal_family (g : list nat) (dst : option nat) (Wg : nat) (ss : nat -> state)
+           (iv : nat -> gs) (tl : gs) : Prop :=
+  run_all (respond g) (map (fun i => state_sync dst i Wg (ss i)) (seq 0 (List.length g)))
+  = Some (map (fun i => Ok (if receives dst i
+                            then map iv (seq 0 (List.length g)) ++ repeat tl (Wg - List.length g)
+                            else untouched Wg)) (seq 0 (List.length g))).
+
+Lemma ideal_tensor g dst Wg (ts : nat -> tensor) d z :
+  List.length g > 0 -> dst_ok g dst -> (forall i, i < List.length g -> tens_ok d z (ts i)) ->
+  ideal_family g dst Wg (fun i => STensor (ts i)) (fun j => GT (ts j)) GEmpty.
+Proof.
+  intros Hn Hok Ht. unfold ideal_family. cbn [state_sync].
+  rewrite (tensor_sync_lossless g dst Wg ts d z Hn Hok Ht). rewrite pad_slots_seq. reflexivity.
+Qed.
+Lemma ideal_obj g dst Wg (vs : nat -> val) :
+  List.length g > 0 -> dst_ok g dst ->
+  ideal_family g dst Wg (fun i => SObj (vs i)) (fun j => GO (vs j)) GEmpty.
+Proof.
+  intros Hn Hok. unfold ideal_family. cbn [state_sync].
+  rewrite (obj_sync_lossless g dst Wg vs Hn Hok). rewrite pad_slots_seq. reflexivity.
+Qed.
+Lemma ideal_list g dst Wg (xss : nat -> list tensor) d z : let n := List.length g in
+  n > 0 -> n <= Wg -> dst_ok g dst ->
+  (forall i, i < n -> forall t, In t (xss i) -> tens_ok d z t) ->
+  (exists i, i < n /\ xss i <> []) ->
+  ((exists i, i < n /\ xss i = []) -> g = seq 0 n) ->
+  ideal_family g dst Wg (fun i => SList (xss i)) (fun j => GL (xss j)) GEmpty.
+Proof.
+  intros n Hn HW Hok Ht H1 H2. unfold ideal_family. cbn [state_sync].
+  rewrite (list_sync_lossless g dst Wg xss d z Hn HW Hok Ht H1 H2). rewrite pad_slots_seq. reflexivity.
+Qed.
+Lemma ideal_dict g dst Wg (kvs : nat -> list (string * tensor)) ks d z : let n := List.length g in
+  n > 0 -> n <= Wg -> dst_ok g dst -> ks <> [] ->
+  (forall i, i < n -> map fst (sort_keys (kvs i)) = ks) ->
+  (forall i, i < n -> forall kt, In kt (kvs i) -> tens_ok d z (snd kt)) ->
+  ideal_family g dst Wg (fun i => SDict (kvs i)) (fun j => GD (sort_keys (kvs j))) (GD []).
+Proof.
+  intros n Hn HW Hok Hks Hk Ht. unfold ideal_family. cbn [state_sync].
+  exact (dict_sync_lossless_same_keys g dst Wg kvs ks d z Hn HW Hok Hks Hk Ht).
+Qed.
+
+(* ------------------------------------------------------------------ sync_states *)
+Lemma sync_loop_cons dst i Wg md k r gath :
+  sync_loop dst i Wg md (k :: r) gath
+  = match lookup2 md k with
+    | Some s => bindr (state_sync dst i Wg s) (fun vals => sync_loop dst i Wg md r (put k vals gath))
+    | None => Ret (Exc "KeyError")
+    end.
+Proof. reflexivity. Qed.
+
+Lemma sync_loop_run g dst Wg (mds : nat -> mdict) (V : key -> list gs) : let n := List.length g in
+  forall order,
+  (forall k, In k order -> exists ss, (forall i, i < n -> lookup2 (mds i) k = Some (ss i)) /\
+     run_all (respond g) (map (fun i => state_sync dst i Wg (ss i)) (seq 0 n))
+     = Some (map (fun i => Ok (if receives dst i then V k else untouched Wg)) (seq 0 n))) ->
+  forall G : nat -> list gdict,
+  run_all (respond g) (map (fun i => sync_loop dst i Wg (mds i) order (G i)) (seq 0 n))
+  = Some (map (fun i => Ok (fold_left (fun gt k => put k (if receives dst i then V k else untouched Wg) gt)
+                                      order (G i))) (seq 0 n)).
+Proof.
+  intros n. induction order as [|k r IH]; intros H G.
+  - apply run_all_ret_ext. intros i _. reflexivity.
+  - destruct (H k (or_introl eq_refl)) as (ss & Hl & Hrun).
+    refine (extK g (fun i => bindr (state_sync dst i Wg (ss i))
+                               (fun vals => sync_loop dst i Wg (mds i) r (put k vals (G i)))) _ _ _ _ _).
+    + intros i Hi. apply in_seq in Hi. rewrite sync_loop_cons, Hl by lia. reflexivity.
+    + bindr_with (fun i => state_sync dst i Wg (ss i)) (fun i => if receives dst i then V k else untouched Wg).
+      { exact Hrun. }
+      rewrite (IH (fun k' Hk' => H k' (or_intror Hk'))
+                  (fun i => put k (if receives dst i then V k else untouched Wg) (G i))).
+      reflexivity.
+Qed.
+
+Definition gath_of (V : key -> list gs) (order : list key) (Wg : nat) : list gdict :=
+  fold_left (fun gt k => put k (V k) gt) order (repeat (template order) Wg).
+
+Lemma sync_states_run g dst Wg (mds : nat -> mdict) (V : key -> list gs) order : let n := List.length g in
+  (forall k, In k order -> exists ss, (forall i, i < n -> lookup2 (mds i) k = Some (ss i)) /\
+     run_all (respond g) (map (fun i => state_sync dst i Wg (ss i)) (seq 0 n))
+     = Some (map (fun i => Ok (if receives dst i then V k else untouched Wg)) (seq 0 n))) ->
+  run_all (respond g) (map (fun i => sync_states dst i Wg (mds i) order) (seq 0 n))
+  = Some (map (fun i => Ok (if receives dst i then Some (gath_of V order Wg) else None)) (seq 0 n)).
+Proof.
+  intros n H. unfold sync_states.
+  bindr_with (fun i => sync_loop dst i Wg (mds i) order (repeat (template order) Wg))
+             (fun i => fold_left (fun gt k => put k (if receives dst i then V k else untouched Wg) gt)
+                                 order (repeat (template order) Wg)).
+  { apply (sync_loop_run g dst Wg mds V order H (fun _ => repeat (template order) Wg)). }
+  apply run_all_ret_ext. intros i _. destruct (receives dst i); reflexivity.
+Qed.
+
+(* ---- addressing: get_key after the puts ---- *)
+Lemma key_eqb_eq a b : key_eqb a b = true <-> a = b.
+Proof.
+  unfold key_eqb. destruct a as [a1 a2], b as [b1 b2]. cbn [fst snd]. rewrite andb_true_iff, !String.eqb_eq.
+  split; [intros [-> ->]; reflexivity|intros E; inversion E; auto].
+Qed.
+Lemma key_eqb_refl a : key_eqb a a = true.
+Proof. apply key_eqb_eq. reflexivity. Qed.
+
+Lemma get_set_same k v d : get_key k d <> None -> get_key k (set_key k v d) = Some v.
+Proof.
+  induction d as [|[k' x] r IH]; cbn [get_key set_key]; [congruence|].
+  destruct (key_eqb k k') eqn:E; cbn [get_key]; rewrite E; [reflexivity|exact IH].
+Qed.
+Lemma get_set_other k k' v d : k <> k' -> get_key k (set_key k' v d) = get_key k d.
+Proof.
+  intros Hne. induction d as [|[k'' x] r IH]; cbn [get_key set_key]; [reflexivity|].
+  destruct (key_eqb k' k'') eqn:E'; cbn [get_key].
+  - apply key_eqb_eq in E'. subst k''. destruct (key_eqb k k') eqn:E; [|reflexivity].
+    apply key_eqb_eq in E. congruence.
+  - rewrite IH. reflexivity.
+Qed.
+Lemma get_set_dom k k' v d : get_key k d <> None -> get_key k (set_key k' v d) <> None.
+Proof.
+  intros H. destruct (key_eqb k k') eqn:E.
+  - apply key_eqb_eq in E. subst k'. rewrite get_set_same by exact H. discriminate.
+  - rewrite get_set_other; [exact H|]. intros ->. rewrite key_eqb_refl in E. discriminate.
+Qed.
+
+Lemma map2_length {X Y Z} (f : X -> Y -> Z) : forall a b, List.length a = List.length b ->
+  List.length (map2 f a b) = List.length a.
+Proof. induction a as [|x a IH]; intros [|y b] H; cbn in *; try lia. f_equal. apply IH. lia. Qed.
+Lemma nth_map2 {X Y Z} (f : X -> Y -> Z) : forall a b j da db dc,
+  j < List.length a -> j < List.length b -> nth j (map2 f a b) dc = f (nth j a da) (nth j b db).
+Proof.
+  induction a as [|x a IH]; intros [|y b] j da db dc Ha Hb; cbn in Ha, Hb; try lia.
+  destruct j as [|j]; [reflexivity|]. cbn [map2 nth]. apply IH; lia.
+Qed.
+
+Lemma get_template k order : In k order -> get_key k (template order) = Some GEmpty.
+Proof.
+  unfold template. induction order as [|a r IH]; [intros []|]. intros Hin. cbn [map get_key].
+  destruct (key_eqb k a) eqn:E; [reflexivity|]. destruct Hin as [->|Hin]; [rewrite key_eqb_refl in E; discriminate|].
+  apply IH, Hin.
+Qed.
+
+Lemma fold_put_spec (V : key -> list gs) Wg j (G : list gdict) : j < Wg -> List.length G = Wg ->
+  forall r, (forall k, In k r -> List.length (V k) = Wg) ->
+  List.length (fold_left (fun gt k => put k (V k) gt) r G) = Wg /\
+  (forall k0, get_key k0 (nth j G []) <> None ->
+              get_key k0 (nth j (fold_left (fun gt k => put k (V k) gt) r G) []) <> None) /\
+  (forall k0, In k0 r -> get_key k0 (nth j G []) <> None ->
+              get_key k0 (nth j (fold_left (fun gt k => put k (V k) gt) r G) []) = Some (nth j (V k0) GEmpty)).
+Proof.
+  intros Hj HG. induction r as [|k1 r IH] using rev_ind; intros HV.
+  - cbn [fold_left]. split; [exact HG|]. split; [auto|intros k0 []].
+  - destruct IH as (IHl & IHd & IHv); [intros k Hk; apply HV, in_or_app; left; exact Hk|].
+    assert (HV1 : List.length (V k1) = Wg) by (apply HV, in_or_app; right; left; reflexivity).
+    rewrite fold_left_app. cbn [fold_left]. set (G' := fold_left (fun gt k => put k (V k) gt) r G) in *.
+    assert (Hnth : nth j (put k1 (V k1) G') [] = set_key k1 (nth j (V k1) GEmpty) (nth j G' [])).
+    { unfold put. apply nth_map2; lia. }
+    split; [unfold put; rewrite map2_length; lia|]. rewrite Hnth. split.
+    + intros k0 H0. apply get_set_dom, IHd, H0.
+    + intros k0 Hin H0. destruct (key_eqb k0 k1) eqn:E.
+      * apply key_eqb_eq in E. subst k1. apply get_set_same, IHd, H0.
+      * assert (Hne : k0 <> k1) by (intros ->; rewrite key_eqb_refl in E; discriminate).
+        rewrite get_set_other by exact Hne. apply IHv; [|exact H0].
+        apply in_app_or in Hin as [Hin|[->|[]]]; [exact Hin|congruence].
+Qed.
+
+Lemma nth_repeat' {X} (x d : X) n j : j < n -> nth j (repeat x n) d = x.
+Proof. intros H. apply (repeat_spec n x). apply nth_In. rewrite repeat_length. exact H. Qed.
+
+Lemma gath_of_spec V order Wg : (forall k, In k order -> List.length (V k) = Wg) ->
+  List.length (gath_of V order Wg) = Wg /\
+  forall j k, j < Wg -> In k order -> get_key k (nth j (gath_of V order Wg) []) = Some (nth j (V k) GEmpty).
+Proof.
+  intros HV. unfold gath_of. split.
+  - destruct Wg as [|W]; [|apply (fold_put_spec V (S W) 0 _ ltac:(lia) (repeat_length _ _) order HV)].
+    clear HV. cbn [repeat].
+    induction order as [|k r IH]; [reflexivity|]. cbn [fold_left]. unfold put at 2.
+    destruct (V k); cbn [map2]; apply IH.
+  - intros j k Hj Hk.
+    destruct (fold_put_spec V Wg j (repeat (template order) Wg) Hj (repeat_length _ _) order HV) as (_ & _ & H).
+    apply H; [exact Hk|]. rewrite nth_repeat' by exact Hj. rewrite get_template by exact Hk. discriminate.
+Qed.
+
+Theorem mixed_collection_addressing g dst Wg (mds : nat -> mdict) (order : list key)
+        (iv : key -> nat -> gs) (tl : key -> gs) : let n := List.length g in
+  n <= Wg ->
+  (forall k, In k order -> exists ss, (forall i, i < n -> lookup2 (mds i) k = Some (ss i)) /\
+                                      ideal_family g dst Wg ss (iv k) (tl k)) ->
+  exists gath,
+    run_all (respond g) (map (fun i => sync_states dst i Wg (mds i) order) (seq 0 n))
+    = Some (map (fun i => Ok (if receives dst i then Some gath else None)) (seq 0 n)) /\
+    List.length gath = Wg /\
+    (forall j k, j < n -> In k order -> get_key k (nth j gath []) = Some (iv k j)) /\
+    (forall j k, n <= j < Wg -> In k order -> get_key k (nth j gath []) = Some (tl k)).
+Proof.
+  intros n HW H.
+  set (V := fun k => map (iv k) (seq 0 n) ++ repeat (tl k) (Wg - n)).
+  assert (HV : forall k, In k order -> List.length (V k) = Wg).
+  { intros k _. unfold V. rewrite app_length, map_length, seq_length, repeat_length. lia. }
+  exists (gath_of V order Wg). split; [apply (sync_states_run g dst Wg mds V order H)|].
+  destruct (gath_of_spec V order Wg HV) as [Hl Hg]. split; [exact Hl|]. split.
+  - intros j k Hj Hk. rewrite Hg by (assumption || lia). f_equal. unfold V.
+    rewrite app_nth1 by (rewrite map_length, seq_length; exact Hj). apply nth_map_seq, Hj.
+  - intros j k Hj Hk. rewrite Hg by (assumption || lia). f_equal. unfold V.
+    rewrite app_nth2 by (rewrite map_length, seq_length; lia). apply nth_repeat'.
+    rewrite map_length, seq_length. lia.
+Qed.
